@@ -86,6 +86,10 @@ def generate(rng, tier, shard, nshards):
                 # the public attribute `frame` re-assigned between two queries (a method query has no frame argument): the next answer is in that frame
                 qs[-1]["pre"] = ["set_frame", gens.spell(str(rng.choice(["NED", "ENU"])), int(rng.integers(5)))]
                 qs[-1]["kind"] = "explicit"
+            if j > 0 and i % 3 == 0 and rng.random() < 0.3:
+                # a reader called by hand between two queries: the properties of one of the shipped coefficient files (any epoch) are looked up; the next
+                # query - also one that keeps the object's date - must not care
+                qs[-1]["pre"] = ["get_properties", str(rng.choice(["WMM2015", "WMM2020", "WMM2025"]))]
             if j > 0 and i % 3 == 1 and rng.random() < 0.35:
                 # the object's public state methods called by hand between two queries (with a date of any epoch): the next dated query must not care
                 qs[-1]["pre"] = [str(rng.choice(["reset_date", "reset_coefficients", "load_coefficients"])), draw_date(rng, bool(rng.random() < 0.5))]
@@ -164,7 +168,13 @@ def check_history(case, ctx):
             if w is None:
                 w = WMM(frame=frame)
                 cur_date = None
-            if q.get("pre") and w is not None and q["pre"][0] == "set_frame":
+            if q.get("pre") and w is not None and q["pre"][0] == "get_properties":
+                fn_ = q["pre"][1] + "/WMM.COF"           # (package-relative, the form wmm_filename has)
+                pre = call(lambda: w.get_properties(fn_))
+                if not ctx.returned(pre, clause="no-exception[get_properties() called by hand]", route=route):
+                    return
+                log.append(("get_properties", q["pre"][1]))
+            elif q.get("pre") and w is not None and q["pre"][0] == "set_frame":
                 w.frame = q["pre"][1]
                 frame = q["pre"][1]
                 log.append(("frame =", frame))
